@@ -12,15 +12,20 @@ The model (`Model/Tree.lean`) transcribes `add_child` ↔ `_set_parent`, `remove
 `replace_child`, `__setattr__` and the `Workflow.parent` setter with the state each leaves behind
 when it raises.  `Cfg` has one flag per repaired statement: all `false` is the pinned code,
 `Cfg.sixFixes` is the tree after the `fix:` commits d3d68f8 c218405 8702aee 53801cf (F1–F6),
-`Cfg.repaired` has in addition `fixes/C13-replace-child-precheck.patch` (F7).
+`Cfg.head` has in addition 02da358 (F7, the replace pre-check), `Cfg.repaired` also 6b8c053 (F8,
+constructors that raise let go of what they took) and dcaa030 (F9, `load()` in place keeps the
+owner): that is /repo now.
 
 * For the **repaired** variant the full statements are theorems (`C13_step`, `C13_history`,
   `C13_rejected_unchanged`, …), for histories of any length and every entry point, `replace_child`
   included.
-* For the **current tree** (F1–F6) the first statement and the history theorem hold as well
-  (`C13_step_current`, `C13_history_current`), the second one for every entry point but
-  `replace_child` (`C13_rejected_unchanged_current`); for `replace_child` it is still false
-  (`C13_replace_ancestor_witness`, `C13_replace_workflow_witness`).
+* For the tree at 02da358 (**`Cfg.head`**, F1–F7; theorems named `…_current`) the first statement
+  and the history theorem hold as well, the second one for every entry point but the constructors
+  that raise after `Lexical.__init__` (`C13_ctor_zombie_witness`, `C13_workflow_ctor_witness`); for
+  F1–F6 it is false for `replace_child` too (`C13_replace_ancestor_witness`,
+  `C13_replace_workflow_witness`).
+* The ancestor walk of `_ensure_path_is_not_cyclic` terminates in every reachable state
+  (`C13_walk_terminates…`).
 * For the **pinned** variant the two full statements are *false*; each defect is a
   machine-checked counterexample (`…_witness`).  What holds
   in every variant is proved without the `Repaired` hypothesis (`C13_cycle_caught`,
@@ -32,6 +37,9 @@ Only property theorems live here; the lemmas are in `Proofs/Tree.lean`.
 -/
 namespace PwVerif.C13
 open PwVerif PwVerif.Tree
+
+/-- an empty world for the small examples -/
+def exEmptyTree : Tree := empty (fun _ => .leaf) (fun _ => true) (fun _ => [])
 
 /-- the invariant of the property; `WFTree` has one field per clause of the English text
 (`agree`, `keysNodup`, `noClash`, `acyclic`, `wfRoots`, `starters`) -/
@@ -70,33 +78,83 @@ theorem C13_history (fuel : Nat) (kind : Nat → Kind) (strict : Nat → Bool) (
 /-- repaired variant: a rejected operation leaves everything as it was -/
 theorem C13_rejected_unchanged (fuel : Nat) : RejectedStatement (Cfg.repaired fuel) := by
   intro t op h hpre hne hrec
-  exact (step_good (repaired_repaired fuel) rfl h op hpre).2 hne hrec
+  exact (step_good (repaired_repaired fuel) rfl rfl h op hpre).2 hne hrec
 
-/-! ### the tree as it is now: the four `fix:` commits (F1–F6) without the replace pre-check (F7)
+/-! ### the tree at 02da358 (`Cfg.head`): F1–F7 without the constructor rollback (F8)
 
-Everything but "a rejected `replace_child` changes nothing" already holds. -/
+Everything but "a constructor that raises after `Lexical.__init__` changes nothing" already holds. -/
 
-/-- current tree: an accepted operation (any entry point, `replace_child` included) preserves the
-invariant -/
-theorem C13_step_current (fuel : Nat) : StepStatement (Cfg.sixFixes fuel) := by
+/-- current tree: an accepted operation (any entry point) preserves the invariant -/
+theorem C13_step_current (fuel : Nat) : StepStatement (Cfg.head fuel) := by
   intro t op h hpre hok
-  exact step_wf (sixFixes_repaired fuel) h op hpre (by rw [hok]; decide)
+  exact step_wf (head_repaired fuel) h op hpre (by rw [hok]; decide)
 
-/-- current tree: every state reached by any history, accepted or rejected steps alike (also a
-half-done `replace_child`), satisfies the invariant -/
+/-- current tree: every state reached by any history, accepted or rejected steps alike (also the
+state a raising constructor leaves behind), satisfies the invariant -/
 theorem C13_history_current (fuel : Nat) (kind : Nat → Kind) (strict : Nat → Bool)
+    (reserved : Nat → List Str) (ops : List Op)
+    (ha : Admissible (Cfg.head fuel) (empty kind strict reserved) ops) :
+    WFTree (run (Cfg.head fuel) (empty kind strict reserved) ops) :=
+  run_wf (head_repaired fuel) ops _ (wf_empty kind strict reserved) ha
+
+/-- current tree: a rejected operation other than a constructor that raises after
+`Lexical.__init__` leaves everything as it was -/
+theorem C13_rejected_unchanged_current (fuel : Nat) (t : Tree) (op : Op) (h : WFTree t)
+    (hpre : OpPre t op) (hnc : op.isCtorFail = false)
+    (hne : (step (Cfg.head fuel) t op).2 ≠ .ok)
+    (hrec : (step (Cfg.head fuel) t op).2 ≠ .recursionError) :
+    (step (Cfg.head fuel) t op).1 = t :=
+  (step_good_nonctor (head_repaired fuel) rfl h op hpre hnc).2 hne hrec
+
+/-- the tree with F1–F6 only: the same but for `replace_child` -/
+theorem C13_history_sixFixes (fuel : Nat) (kind : Nat → Kind) (strict : Nat → Bool)
     (reserved : Nat → List Str) (ops : List Op)
     (ha : Admissible (Cfg.sixFixes fuel) (empty kind strict reserved) ops) :
     WFTree (run (Cfg.sixFixes fuel) (empty kind strict reserved) ops) :=
   run_wf (sixFixes_repaired fuel) ops _ (wf_empty kind strict reserved) ha
 
-/-- current tree: a rejected operation other than `replace_child` leaves everything as it was -/
-theorem C13_rejected_unchanged_current (fuel : Nat) (t : Tree) (op : Op) (h : WFTree t)
-    (hpre : OpPre t op) (hnr : op.isReplace = false)
-    (hne : (step (Cfg.sixFixes fuel) t op).2 ≠ .ok)
-    (hrec : (step (Cfg.sixFixes fuel) t op).2 ≠ .recursionError) :
-    (step (Cfg.sixFixes fuel) t op).1 = t :=
-  (step_good_nonreplace (sixFixes_repaired fuel) h op hpre hnr).2 hne hrec
+/-! ### the ancestor walk of `_ensure_path_is_not_cyclic` terminates because the state is acyclic
+
+`while isinstance(ancestor, Lexical) and ancestor is not child: ancestor = ancestor.parent` has no
+bound of its own; on a parent cycle that does not contain `child` it would never return. -/
+
+/-- in every state satisfying the invariant the walk started anywhere ends within `rank x + 1`
+iterations (`n` below), and the hardened walk with a visited set
+(`fixes/C13-cycle-walk-visited.patch`) never meets a node twice, i.e. computes the same -/
+theorem C13_walk_terminates (t : Tree) (h : WFTree t) (c x : Nat) :
+    ∃ n, ∀ m, n ≤ m → ancWalk t c m x ≠ .recursionError ∧ ancWalkSeen t c m [] x = ancWalk t c m x := by
+  obtain ⟨rank, hr⟩ := exists_rank_of_wf h.acyclic
+  refine ⟨rank x + 1, fun m hm => ⟨ancWalk_terminates_of_rank t rank hr c m x (by omega), ?_⟩⟩
+  exact ancWalkSeen_eq t rank hr c m [] x (by simp)
+
+/-- hence in every reachable state (any history, current tree or repaired) -/
+theorem C13_walk_terminates_reachable (fuel : Nat) (kind : Nat → Kind) (strict : Nat → Bool)
+    (reserved : Nat → List Str) (ops : List Op)
+    (ha : Admissible (Cfg.head fuel) (empty kind strict reserved) ops) (c x : Nat) :
+    ∃ n, ∀ m, n ≤ m →
+      ancWalk (run (Cfg.head fuel) (empty kind strict reserved) ops) c m x ≠ .recursionError ∧
+      ancWalkSeen (run (Cfg.head fuel) (empty kind strict reserved) ops) c m [] x =
+        ancWalk (run (Cfg.head fuel) (empty kind strict reserved) ops) c m x :=
+  C13_walk_terminates _ (C13_history_current fuel kind strict reserved ops ha) c x
+
+/-- two nodes that are each other's parent (not reachable, see above) -/
+def cycT : Tree :=
+  { exEmptyTree with parent := fun n => if n = 1 then some 2 else if n = 2 then some 1 else none }
+
+/-- the dependency is real: on a parent cycle that does not contain the child the plain walk
+exhausts every bound, the hardened one stops -/
+theorem C13_walk_needs_acyclic :
+    (∀ n, ancWalk cycT 7 n 1 = .recursionError) ∧ ancWalkSeen cycT 7 64 [] 1 = .cyclicPathError := by
+  refine ⟨?_, by decide⟩
+  intro n
+  suffices h : ∀ n, ancWalk cycT 7 n 1 = .recursionError ∧ ancWalk cycT 7 n 2 = .recursionError from (h n).1
+  intro n
+  induction n with
+  | zero => exact ⟨rfl, rfl⟩
+  | succ n ih =>
+    have p1 : cycT.parent 1 = some 2 := rfl
+    have p2 : cycT.parent 2 = some 1 := rfl
+    exact ⟨by simp [ancWalk, p1, ih.2], by simp [ancWalk, p2, ih.1]⟩
 
 /-- `replace_child` refused up front (not the owner, replacement already owned, ownership
 pre-check where present): unchanged, in every variant -/
@@ -144,6 +202,8 @@ abbrev rep : Cfg := Cfg.repaired 64
 abbrev pin : Cfg := Cfg.pinned 64
 /-- /repo after the four `fix:` commits, without the replace pre-check -/
 abbrev cur : Cfg := Cfg.sixFixes 64
+/-- /repo at 02da358 (F1–F7) -/
+abbrev hd : Cfg := Cfg.head 64
 
 /-- a healthy history through every entry point: constructor with `parent=`, three nesting
 levels, a name clash resolved by suffixing, refused attempts (attribute clash, second parent,
@@ -320,6 +380,8 @@ def t11 : Tree := run rep exEmpty base11
 theorem t11_wf : WFTree t11 := C13_history 64 _ _ _ base11 (by decide)
 
 example : Admissible cur exEmpty exOps ∧ WFTree (run cur exEmpty exOps) :=
+  ⟨by decide +kernel, C13_history_sixFixes 64 _ _ _ exOps (by decide +kernel)⟩
+example : Admissible hd exEmpty exOps ∧ WFTree (run hd exEmpty exOps) :=
   ⟨by decide +kernel, C13_history_current 64 _ _ _ exOps (by decide +kernel)⟩
 
 /-- KF-C13-9 with the four `fix:` commits (F1–F6): the replacement is an ancestor of the
@@ -357,6 +419,56 @@ example : (step cur t12 (.replace 0 2 1)).2 = .parentMostError ∧
     (step cur t12 (.replace 0 2 1)).1.label 1 = ['a'] ∧
     (step rep t12 (.replace 0 2 1)).2 = .typeError ∧ t12.children 0 = [(['a'], 2)] := by decide
 
+/-! ### constructors that raise after `Lexical.__init__` (current tree: F1–F7) -/
+
+def base13 : List Op := [.new 1 ['w'] none, .new 2 ['a'] none, .new 3 ['a'] none]
+def t13 : Tree := run rep exEmpty base13
+theorem t13_wf : WFTree t13 := C13_history 64 _ _ _ base13 (by decide)
+
+/-- KF-C13-11: `UserInput(label="x", parent=wf, bogus=1)`, a macro whose graph creator raises, …:
+the constructor raises but the workflow keeps listing the half-built object; with the rollback
+(F8) the tree is the one before -/
+theorem C13_ctor_zombie_witness : ¬ RejectedStatement hd := by
+  intro hR
+  have he := hR t13 (.newFail 6 ['x'] (some 1)) t13_wf (by decide) (by decide) (by decide)
+  have h1 : (step hd t13 (.newFail 6 ['x'] (some 1))).1.children 1 = [(['x'], 6)] := by decide
+  rw [he] at h1
+  exact absurd h1 (by decide)
+
+example : (step hd t13 (.newFail 6 ['x'] (some 1))).2 = .setupError ∧
+    (step rep t13 (.newFail 6 ['x'] (some 1))).2 = .setupError ∧
+    (step rep t13 (.newFail 6 ['x'] (some 1))).1.children 1 = [] := by decide
+
+/-- KF-C13-12: `Workflow("v", a, b)` with equally labelled `a`, `b`: the constructor raises after
+`a` has been adopted; `a` stays owned by the unreachable workflow -/
+theorem C13_workflow_ctor_witness : ¬ RejectedStatement hd := by
+  intro hR
+  have he := hR t13 (.newWith 0 ['v'] [2, 3] false) t13_wf (by decide) (by decide) (by decide)
+  have h1 : (step hd t13 (.newWith 0 ['v'] [2, 3] false)).1.parent 2 = some 0 := by decide
+  rw [he] at h1
+  exact absurd h1 (by decide)
+
+example : (step hd t13 (.newWith 0 ['v'] [2, 3] false)).2 = .attributeError ∧
+    (step rep t13 (.newWith 0 ['v'] [2, 3] false)).2 = .attributeError ∧
+    (step rep t13 (.newWith 0 ['v'] [2, 3] false)).1.parent 2 = none ∧
+    (step rep t13 (.newWith 0 ['v'] [2] false)).2 = .ok ∧
+    (step rep t13 (.newWith 0 ['v'] [2] false)).1.children 0 = [(['a'], 2)] ∧
+    (step rep t13 (.newWith 0 ['v'] [2] true)).2 = .setupError ∧
+    (step rep t13 (.newWith 0 ['v'] [2] true)).1.parent 2 = none := by decide
+
+/-- KF-C13-13 (`Node.load()` is not an operation of the property's list, its invariant is stated
+for all times): loading in place on an owned node purges its owner, the composite keeps listing
+it; with `fixes/C13-load-keeps-owner.patch` (F9) the ownership is untouched (the re-owning of the
+loaded children by `LexicalParent.__setstate__` is the identity where both sides agree) -/
+theorem C13_load_orphans_witness :
+    WFTree t1 ∧ ¬ WFTree (loadInPlace hd t1 2) ∧ ∀ t c, WFTree t → loadInPlace rep t c = t := by
+  refine ⟨t1_wf, ?_, fun t c h => by simp only [loadInPlace]; exact reown_id h _ c⟩
+  intro hw
+  have h1 : (['a'], 2) ∈ (loadInPlace hd t1 2).children 0 := by decide
+  have := ((hw.agree 0 2 ['a']).mp h1).1
+  have h2 : (loadInPlace hd t1 2).parent 2 = none := by decide
+  rw [h2] at this; cases this
+
 def base10 : List Op := [.new 0 ['u'] none]
 def t10 : Tree := run rep exEmpty base10
 /-- KF-C13-10: a macro whose graph creator adds a child labelled like the root workflow cannot
@@ -383,6 +495,13 @@ end PwVerif.C13
 #print axioms PwVerif.C13.C13_step_current
 #print axioms PwVerif.C13.C13_history_current
 #print axioms PwVerif.C13.C13_rejected_unchanged_current
+#print axioms PwVerif.C13.C13_history_sixFixes
+#print axioms PwVerif.C13.C13_walk_terminates
+#print axioms PwVerif.C13.C13_walk_terminates_reachable
+#print axioms PwVerif.C13.C13_walk_needs_acyclic
+#print axioms PwVerif.C13.C13_ctor_zombie_witness
+#print axioms PwVerif.C13.C13_workflow_ctor_witness
+#print axioms PwVerif.C13.C13_load_orphans_witness
 #print axioms PwVerif.C13.C13_replace_refused_unchanged
 #print axioms PwVerif.C13.C13_one_parent
 #print axioms PwVerif.C13.C13_rank
